@@ -180,8 +180,9 @@ FS_ASSUMPTIONS = [
     'Verus is run with --no-trait-conflicts (std::path::Path trips the trait-conflict checker)',
 ]
 
-U4_NOTE = ('Trusted: Verus/Z3; the POSIX/std/filetime stand-ins in contracts/prelude/vfs.rs (listed one by one in evidence.trusted_base); '
-           'sequential (solo) filesystem model; extraction transformations T1-T9 checked by token-level erasure on every run. ')
+U4_NOTE = ('Trusted: Verus/Z3; the stated effect of each POSIX/std/filetime/tempfile stand-in in contracts/prelude (listed one by one in evidence.trusted_base; '
+           'that each stand-in preserves the invariant is proved from its protocol precondition by the generated lemmas of unit u0_stubs, not assumed); '
+           'sequential (solo) filesystem model; callbacks (checker, judge, populate) as contracted; extraction transformations T1-T15 checked by token-level erasure on every run. ')
 
 
 def _u4(pid, text, replayer=None, thorough=None, not_covered=(), units=('u0_stubs', 'u6_stack'), extra_assume=()):
@@ -240,7 +241,7 @@ _u4('C09', 'Unbounded proof for every timestamp granularity in [1 ns, 2 s] and e
     'CacheDir::get hit, touch (true) or put onto an existing key the entry satisfies atime >= mtime with mtime and content unchanged; after set or an inserting put '
     'the entry carries mtime = trunc(now) (>= every other stored mtime) and atime < mtime; reads never pass Some(mtime) to futimens (stub precondition).',
     not_covered=[SHARD_NC, STACK_NC])
-_u4('C02', 'Unbounded proof of the crash invariant at every call boundary: every POSIX stub requires and re-establishes World.valid (whatever is visible under a key name '
+_u4('C02', 'Unbounded proof of the crash invariant at every call boundary: every POSIX stand-in requires World.valid and is proved (u0_stubs) to re-establish it from its protocol precondition (whatever is visible under a key name '
     'is read-only and holds bytes supplied for that key), rename/link require the publish guarantee (private, read-only, stamped, synced if required, supplied for that key), '
     'and every function under contract ensures valid on every exit including errors; only cache directories and .kismet_temp are ever created; stale temp files are the only '
     'temp files ever removed; a maintenance run in which no call fails leaves no file in .kismet_temp older than the age limit (no_stale_temp: loop invariant over the complete '
